@@ -61,7 +61,11 @@ def run_case(ctx, case):
         if mv is not None:
             raise RuntimeError("generator produced a layout the model calls invalid: %s" % mv)
         h = b.build(d)
-        ve = b.validityerror(h)
+        try:
+            ve = b.validityerror(h)
+        except AkError as e:
+            ctx.violation("validity-check-raised", {"chain": [], "error": str(e)[:200], "type": gen.typestr(case["T"])})
+            return
         ctx.count("accept_checked")
         for k in model.classes(d):
             ctx.cover("accepted_classes", k)
@@ -109,7 +113,11 @@ def run_case(ctx, case):
             rd = out.desc
             if rd["c"] in ("None",) or rd.get("scalar"):
                 break
-            ve = b.validityerror(out.handle)
+            try:
+                ve = b.validityerror(out.handle)
+            except AkError as e:
+                ctx.violation("validity-check-raised", {"chain": [c["op"] for c in chain], "error": str(e)[:200]})
+                break
             try:
                 mv2 = model.validity(rd)
             except Exception as e:     # the model cannot even read it
@@ -119,7 +127,8 @@ def run_case(ctx, case):
                 ctx.cover("closure_result_classes", k)
             ctx.nontrivial(True)
             if ve != "" or mv2 is not None:
-                ctx.violation("invalid-result", {"chain": [c["op"] for c in chain], "validityerror": ve[:300],
+                ctx.violation("invalid-result", {"chain": [c["op"] for c in chain], "op": _slim(chain[-1]),
+                                                 "validityerror": ve[:300],
                                                  "model": mv2, "result_classes": sorted(model.classes(rd))})
                 break
             if rd["c"] == "Record" or step == steps - 1:
@@ -137,6 +146,14 @@ def run_case(ctx, case):
             chain.append(op)
             cur_h = out.handle
         ctx.sample({"mode": mode, "chain": [c["op"] for c in chain]})
+
+
+def _slim(op):
+    out = dict(op)
+    out.pop("others", None)
+    if "items" in out:
+        out["items"] = [{k: v for k, v in it.items() if k != "layout"} for it in out["items"]]
+    return out
 
 
 def infer_T(d):
@@ -196,25 +213,6 @@ KNOWN = {
 
 
 def classify(vio):
-    case = vio.get("case") or {}
-    kind = vio.get("kind")
-    d = case.get("layout") or {}
-    if kind == "process-death" and case.get("rule") == "char-not-numpy":
-        return "F3"
-    if kind in ("valid-array-rejected", "process-death"):
-        rep = str(vio.get("detail"))
-        if "categorical" in rep or "is_unique" in rep or "unique_data" in rep:
-            for _p, n in model.walk(d):
-                if model.param(n, "__array__") == "categorical":
-                    ct = n["content"]
-                    if ct["c"] == "NumpyArray" and (ct["strides"] != [ct["itemsize"]]) and len(ct["shape"]) == 1:
-                        return "F7"
-                    if model.param(ct, "__array__") == "string":
-                        try:
-                            if "" in model.value(ct):
-                                return "F6"
-                        except Exception:
-                            pass
     from vlib import known
     return known.classify(vio)
 
